@@ -78,6 +78,34 @@ def random_bag(rng, cands, max_ballots, tied=False, rational=0.3, wmax=4, min_ba
     return out
 
 
+def partial_tie_bag(rng, cands, wmax=3):
+    """a profile invariant under the permutation that swaps c0<->c1 and c2<->c3 (c4.. fixed) in which all four lead the same weight of
+    ballots: every anonymous and neutral score ties c0 with c1 and c2 with c3, first-place votes tie all four, while Borda-like scores
+    usually separate the two pairs.  A deterministic tiebreak therefore resolves such a tie only *partially* (two groups, each still
+    tied), the rest is a recorded random choice."""
+    a, b, c, d = cands[:4]
+    rest = list(cands[4:])
+    sw = {a: b, b: a, c: d, d: c}
+    w = rng.randint(1, wmax)
+    out = []
+    for x, y in ((a, b), (c, d)):
+        others = [z for z in cands if z not in (x, y)]
+        tail = rng.sample(others, rng.randint(0, len(others)))
+        mid = [y] if rng.random() < 0.7 else []
+        out.append({"r": [[x]] + [[z] for z in mid + tail], "w": [w, 1]})
+        out.append({"r": [[sw[x]]] + [[sw.get(z, z)] for z in mid + tail], "w": [w, 1]})
+    for _ in range(rng.randint(0, 2)):          # extra invariant pairs led by a fixed candidate (or by nobody of the four)
+        if not rest:
+            break
+        e = rng.choice(rest)
+        tail = rng.sample([z for z in cands if z != e], rng.randint(0, len(cands) - 1))
+        w2 = rng.randint(1, wmax)
+        out.append({"r": [[e]] + [[z] for z in tail], "w": [w2, 1]})
+        out.append({"r": [[e]] + [[sw.get(z, z)] for z in tail], "w": [w2, 1]})
+    rng.shuffle(out)
+    return out
+
+
 AWKWARD = ["zoë", "Bob Smith", "a", "Ω-3", "b,c", "\"q\"", "Z", "10", "9", " x"]
 
 
